@@ -410,3 +410,30 @@ PROPS["C16"] = {
 
 # properties deliberately not claimed (reason each); anything else missing from PROPS is simply not built yet
 NOT_APPLICABLE = {}
+
+
+# floors for the families added in rounds 7-9: their sizes do not depend on the time budget, so a family that silently stops
+# running (a refused helper, a renamed counter) makes the check inconclusive instead of leaving a quiet gap
+_EXTRA_FLOORS = {
+    "C01": {"optyping:typed-filter:accepted": 3500, "optyping:match-coverage:accepted": 75, "optyping:loop-value:accepted": 50, "optyping:union-call:accepted": 300, "unreachable-code:accepted": 700},
+    "C02": {"optyping:typed-filter:accepted": 3500, "optyping:match-coverage:accepted": 75, "optyping:union-call:accepted": 300, "unreachable-code:accepted": 700},
+    "C03": {"first-use-in-fresh-process:ok": 100, "unreachable-code:accepted": 900, "union-call:accepted": 300, "special-constants:accepted": 12000},
+    "C04": {"identity-twin-templates": 24},
+    "C05": {"probes-after-unrelated-work": 450},
+    "C06": {"closure-creation-templates": 14},
+    "C07": {"order-family-cases": 5000},
+    "C08": {"form_same_operand": 1000, "form_comparison_compound": 100000},
+    "C09": {"chain_first_steps": 550, "nested_bound_cases": 650},
+    "C10": {"law:wide-union": 180},
+    "C11": {"seqdef-cases": 2700, "typed-filter-judged": 1400, "seqdef-nested-cases": 25},
+    "C12": {"order-family-cases": 5000, "match-coverage:accepted": 25, "loop-value-cases": 100},
+    "C14": {"twin-grouping-cases": 3000, "float-chain-discriminating-cases": 1100},
+    "C15": {"deep-types": 90},
+    "C17": {"fixed-histories": 20},
+    "C18": {"fs-fault-states": 75},
+    "C19": {"scalar-matrix-cases": 1200, "scalar-matrix-table-cases": 1200},
+    "C20": {"deep-values": 1000, "print-histories": 1000},
+}
+for _p, _f in _EXTRA_FLOORS.items():
+    for _t in ("quick", "thorough"):
+        PROPS[_p]["floors"][_t] = dict(PROPS[_p]["floors"][_t], **_f)
